@@ -112,6 +112,23 @@ def check_zone(ctx, zone, zid, full, rng, n_probe_intervals, n_seeded):
                 got2 = [zonewalk.rec_of(z) for z in zone.get_zone_intervals(start=gen.ns_inst(a), end=gen.ns_inst(b))]
                 if got != log[i0:i1 + 1] or got2 != got:
                     V(ctx, zid, "get_zone_intervals-differs", f"get_zone_intervals([{a},{b})) yields {len(got)} intervals; the walk has {i1 - i0 + 1} there (first {got[:1]} vs {log[i0:i0 + 1]})", {"a": a, "b": b})
+                # ranges that are unbounded on one or both sides (read lazily: only the first few of an open-ended enumeration)
+                import itertools
+                k_ = min(6, len(log) - i0)
+                forms = [("[a, end of time)", lambda: Interval(gen.ns_inst(a), None), log[i0:i0 + k_], k_)]
+                if log[0][0] is None:
+                    j1 = min(i1, 8); bj = log[j1][0] + 1 if log[j1][0] is not None else None
+                    if bj is not None:
+                        forms.append(("(start of time, b)", lambda bj=bj: Interval(None, gen.ns_inst(bj)), log[:j1 + 1], j1 + 2))
+                    forms.append(("(start of time, end of time)", lambda: Interval(None, None), log[:min(5, len(log))], min(5, len(log))))
+                for fname, mk, want_, k2 in forms:
+                    ctx.counters["get_zone_intervals_compared"] += 1; ctx.evaluations += 1
+                    try:
+                        got3 = [zonewalk.rec_of(z) for z in itertools.islice(iter(zone.get_zone_intervals(interval=mk())), k2)]
+                    except Exception as e:  # noqa: BLE001
+                        ctx.exc(e); V(ctx, zid, f"get_zone_intervals-raised:{type(e).__name__}", f"get_zone_intervals over {fname} (a={a}) raised {e!r}", {"a": a, "form": fname}); continue
+                    if got3 != want_:
+                        V(ctx, zid, "get_zone_intervals-differs", f"get_zone_intervals over {fname} with a={a}: first intervals {got3[:2]}; the walk has {want_[:2]}", {"a": a, "form": fname})
     return segments[0][0]
 
 
